@@ -56,7 +56,7 @@ def get_smallest_distance(
     Returns:
         smallest distance between groups
     """
-    res_dist = MAX_DISTANCE
+    res_dist = math.inf
     res_atom1 = None
     res_atom2 = None
     for atom1 in atoms1:
